@@ -81,5 +81,5 @@ func (p *Puback) Unpack(r io.Reader) error {
 			return err
 		}
 	}
-	return nil
+	return endOfPacket(bufr)
 }
